@@ -782,6 +782,11 @@ fn candidate(prop: &str, r: &mut StdRng) -> (usize, Vec<Value>) {
                 3 => json!({"op": "t_mk", "k": "esop", "c": "from_cubes", "d": 0, "n": n, "cubes": cubes_json(&rcubes(r, n, 5))}),
                 _ => json!({"op": "t_mk", "k": "soes", "c": "from_cubes", "d": 0, "n": n, "cubes": ecubes_json(&recubes(r, n, 5))}),
             };
+            if r.gen_range(0..5) == 0 {
+                // a failed print of another form first
+                let other = json!({"op": "t_mk", "k": "sop", "c": "from_cubes", "d": 1, "n": n, "cubes": cubes_json(&rcubes(r, n, 3))});
+                return (n, vec![other, mk, json!({"op": "t_text_fail", "a": 1, "limit": r.gen_range(0..6)}), json!({"op": "t_text", "a": 0, "n": n})]);
+            }
             (n, vec![mk, json!({"op": "t_text", "a": 0, "n": n})])
         }
         _ => panic!("HARNESS: no two-level hunt for {}", prop),
